@@ -95,6 +95,49 @@ func checkTextUnits(c *Ctx, u *Universe) {
 	}
 	R.min("C14.units", 1)
 	ruleRuneErrorSized(c, u, "C14.runeerror", []string{"pkg/value", "pkg/exec"})
+	// ---- C14.dispatch: text % list is answered by the formatter, whatever the operands look like: in evalExpression every
+	// normal answer given for the remainder operator is the result of evalArithTypeModuloExpr (no literal fast path that
+	// skips the placeholder / argument count check)
+	if g := u.ssaFunc("pkg/exec", "evalExpression"); g != nil {
+		mod := constsWithPrefix(u.Pkgs["pkg/syntax"], "ArithModulo")["ArithModulo"]
+		nM, okM := 0, true
+		gTests := nilTests(g)
+		for _, b := range g.Blocks {
+			ifi, ok := b.Instrs[len(b.Instrs)-1].(*ssa.If)
+			if !ok {
+				continue
+			}
+			bo, ok := ifi.Cond.(*ssa.BinOp)
+			if !ok || bo.Op != token.EQL {
+				continue
+			}
+			k, isK := bo.Y.(*ssa.Const)
+			if _, isT := fieldLoad(bo.X, "Type"); !isK || !isT || k.Int64() != mod {
+				continue
+			}
+			nM++
+			for _, rr := range returnsReachable(b.Succs[0], 0, nil) {
+				if !edgeDominates(b, b.Succs[0], rr.Ret.Block()) || !normalReturn(g, rr.Ret, gTests) {
+					continue
+				}
+				for _, src := range allSources(retValue(rr.Ret, 0)) {
+					var call *ssa.Call
+					switch x := src.(type) {
+					case *ssa.Call:
+						call = x
+					case *ssa.Extract:
+						call, _ = x.Tuple.(*ssa.Call)
+					}
+					if call == nil || u.callName(call) != "pkg/exec.evalArithTypeModuloExpr" {
+						okM = false
+					}
+				}
+			}
+		}
+		R.check(okM && nM >= 1, "C14.dispatch", "pkg/exec.evalExpression:remainder", u.pos(g.Pos()), "every answer for % comes from evalArithTypeModuloExpr", "evalExpression answers a % expression itself on some path (a fast path for literal operands): the formatter - and with it the 'placeholders and arguments differ in number' error - is skipped")
+	}
+	// 字符组 / 长度 / 取样 answer for the text itself: no package-level cache of their (mutable) results
+	borrowRule(c, "C16", "C16.singletons", "C14.state")
 	// siblings: 长度 counts runes, 字符组 decodes runes
 	for _, s := range []struct{ fn, callee string }{{"strGetLength", "unicode/utf8.RuneCountInString"}, {"strGetCharArray", "unicode/utf8.DecodeRuneInString"}} {
 		f := u.ssaFunc("pkg/value", s.fn)
@@ -315,7 +358,11 @@ func checkTemplateScanner(c *Ctx, u *Universe) {
 	// the scanner is the character loop with a switch in formatString or in a helper it calls
 	fd := fd0
 	body, loop := findMachineLoop(fd)
-	if rs0, _ := loop.(*ast.RangeStmt); body == nil || rs0 == nil {
+	var idxObj, chObj types.Object
+	if loop != nil {
+		body, chObj, idxObj = elementLoopIdx(info, loop)
+	}
+	if body == nil {
 		ast.Inspect(fd0.Body, func(n ast.Node) bool {
 			call, ok := n.(*ast.CallExpr)
 			if !ok {
@@ -323,9 +370,9 @@ func checkTemplateScanner(c *Ctx, u *Universe) {
 			}
 			if f := calleeFunc(info, call); f != nil && f.Pkg() == p.Types {
 				if g, _ := u.funcDecl("pkg/exec", f.Name()); g != nil && g != fd0 {
-					if b2, l2 := findMachineLoop(g); b2 != nil {
-						if _, isRange := l2.(*ast.RangeStmt); isRange && body == nil {
-							fd, body, loop = g, b2, l2
+					if _, l2 := findMachineLoop(g); l2 != nil && body == nil {
+						if b2, c2, i2 := elementLoopIdx(info, l2); b2 != nil {
+							fd, body, loop, chObj, idxObj = g, b2, l2, c2, i2
 						}
 					}
 				}
@@ -333,12 +380,10 @@ func checkTemplateScanner(c *Ctx, u *Universe) {
 			return true
 		})
 	}
-	rs, _ := loop.(*ast.RangeStmt)
-	if body == nil || rs == nil {
+	if body == nil || chObj == nil || idxObj == nil {
 		R.undecided("C14.tmpl", "pkg/exec.formatString", pos, "scanner loop not found")
 		return
 	}
-	idxObj, chObj := identObj(info, rs.Key), identObj(info, rs.Value)
 	// roles, not names: state = the local assigned only local constants; stack = the local slice the loop appends
 	// to; placeholder counter = the local the loop increments
 	var stateObj, stackObj, countObj types.Object
